@@ -690,6 +690,16 @@ def run(prop, tier, replay=None):
         for name, res in proof["obligations"].items():
             if res == "Error":
                 viol_model.append(("AsmStep", "Apalache: obligation %s fails" % name, proof.get("log", "")))
+    if prop == "C13" and not replay:
+        # design-level termination of the placement of one instruction (room check / trial write and padding / final write), liveness under
+        # weak fairness, and "at most two paddings": spec/AsmStepLive.tla on the step machine Apalache proves safe
+        rc, o = A.tlc("AsmStepLive", cfg="AsmStepLive", workers=4, tag="steplive-%d" % os.getpid(), timeout=600)
+        m = re.search(r"(\d+) states generated, (\d+) distinct states found", o)
+        ok = rc == 0 and "No error has been found" in o
+        extra = {"placement_terminates": {"spec": "spec/AsmStepLive.tla", "properties": ["Terminates", "PadsTwiceAtMost", "Quiescent"], "ok": ok,
+                                          "distinct_states": int(m.group(2)) if m else 0, "constants": "T=4 Q=6 MAXLEN=4, chunk sizes 2..9"}}
+        if not ok:
+            viol_model.append(("AsmStepLive", "Terminates / PadsTwiceAtMost / Quiescent", o[-1500:]))
     return finish(prop, tier, t0, results, L, stats_all, viol_model, replay, extra_cov=extra)
 
 
